@@ -1,6 +1,6 @@
 (* C11 Qualifier collection behaves as a case-insensitive sorted map *)
 Load "coq/props/Hdr".
-From PM Require Import Quals2 Quals3 Quals4 Quals5 Final Exec.
+From PM Require Import Quals2 Quals3 Quals4 Quals5 Final Exec Refine.
 Lemma src_cfg_ok : cfg_ok cfg. Proof. sc. Qed.
 Theorem C11_reachable_invariant : forall (ops : list qop) q, QInv cfg q -> QInv cfg (fold_left (qstep cfg) ops q).
 Proof. apply C11_reachable; sc. Qed.
@@ -59,3 +59,47 @@ Theorem C11_entry_or_insert_is_reference : forall q k v, QInv cfg q -> valid_key
   qxstep cfg q (QEOrIns k v) = match q_get cfg q k with Some w => (q, XoOpt (Some w)) | None => (q_set cfg q k v, XoOpt (Some v)) end.
 Proof. apply qxstep_entry_or_insert; sc. Qed.
 Print Assumptions C11_entry_or_insert_is_reference.
+(* --- refinement to the reference map  k |-> get k  (keyed by the ASCII-lower-cased key) --- *)
+Theorem C11_insert_leaves_other_keys : forall q k v q' k', QInv cfg q -> q_insert cfg q k v = Ok q' -> valid_key cfg k' = true -> lk k' <> lk k -> q_get cfg q' k' = q_get cfg q k'.
+Proof. apply q_get_insert_other; sc. Qed.
+Print Assumptions C11_insert_leaves_other_keys.
+Theorem C11_lookup_ignores_letter_case : forall q k k', QInv cfg q -> valid_key cfg k = true -> valid_key cfg k' = true -> lk k = lk k' -> q_get cfg q k = q_get cfg q k'.
+Proof. apply q_get_case_insensitive; sc. Qed.
+Print Assumptions C11_lookup_ignores_letter_case.
+Theorem C11_remove_leaves_other_keys : forall q k k', QInv cfg q -> valid_key cfg k = true -> valid_key cfg k' = true -> lk k' <> lk k -> q_get cfg (fst (q_remove cfg q k)) k' = q_get cfg q k'.
+Proof. apply q_get_remove_other; sc. Qed.
+Print Assumptions C11_remove_leaves_other_keys.
+Theorem C11_retain : forall f q k, QInv cfg q -> valid_key cfg k = true ->
+  q_get cfg (q_retain f q) k = match q_get cfg q k with Some v => if f (lk k) v then Some v else None | None => None end.
+Proof. apply q_get_retain; sc. Qed.
+Print Assumptions C11_retain.
+Theorem C11_value_mutation : forall g q k, QInv cfg q -> valid_key cfg k = true -> q_get cfg (map_vals g q) k = option_map g (q_get cfg q k).
+Proof. apply q_get_map_vals; sc. Qed.
+Print Assumptions C11_value_mutation.
+Theorem C11_iteration_is_the_map : forall q, QInv cfg q ->
+  (forall k v, In (k, v) q <-> valid_key cfg k = true /\ lk k = k /\ q_get cfg q k = Some v)
+  /\ Sorted.StronglySorted (fun a b => bcmp a b = Lt) (map fst q) /\ NoDup q /\ rev (rev q) = q.
+Proof. apply iteration_is_the_map; sc. Qed.
+Print Assumptions C11_iteration_is_the_map.
+Theorem C11_entry_insert : forall q k v, QInv cfg q -> valid_key cfg k = true ->
+  qxstep cfg q (QEInsert k v) = match q_get cfg q k with Some w => (q_set cfg q k v, XoOcc2 w w) | None => (q_set cfg q k v, XoVacV v) end.
+Proof. apply entry_insert_is_reference; sc. Qed.
+Print Assumptions C11_entry_insert.
+Theorem C11_entry_remove : forall q k, QInv cfg q -> valid_key cfg k = true ->
+  qxstep cfg q (QERemove k) = match q_get cfg q k with Some w => (fst (q_remove cfg q k), XoOcc w) | None => (q, XoVac) end.
+Proof. apply entry_remove_is_reference; sc. Qed.
+Print Assumptions C11_entry_remove.
+Theorem C11_entry_remove_entry : forall q k, QInv cfg q -> valid_key cfg k = true ->
+  qxstep cfg q (QERemoveEntry k) = match q_get cfg q k with Some w => (fst (q_remove cfg q k), XoOccKV (lk k) w) | None => (q, XoVac) end.
+Proof. apply entry_remove_entry_is_reference; sc. Qed.
+Print Assumptions C11_entry_remove_entry.
+Theorem C11_entry_and_modify : forall q k suf v, QInv cfg q -> valid_key cfg k = true ->
+  qxstep cfg q (QEAndMod k suf v) = match q_get cfg q k with Some w => (q_set cfg q k (w ++ suf), XoVC (w ++ suf) true) | None => (q_set cfg q k v, XoVC v false) end.
+Proof. apply entry_and_modify_is_reference; sc. Qed.
+Print Assumptions C11_entry_and_modify.
+Theorem C11_invalid_key_every_operation : forall q k, valid_key cfg k = false ->
+  forall v suf, qxstep cfg q (QEOrIns k v) = (q, XoE) /\ qxstep cfg q (QEOrInsWith k v) = (q, XoE) /\ qxstep cfg q (QEAndMod k suf v) = (q, XoE)
+  /\ qxstep cfg q (QEInsert k v) = (q, XoE) /\ qxstep cfg q (QERemove k) = (q, XoE) /\ qxstep cfg q (QERemoveEntry k) = (q, XoE) /\ qxstep cfg q (QEGetMut k suf) = (q, XoE)
+  /\ qxstep cfg q (QIns k v) = (q, XoE) /\ qxstep cfg q (QRem k) = (q, XoOpt None) /\ qxstep cfg q (QGet k) = (q, XoOpt None) /\ qxstep cfg q (QHas k) = (q, XoB false).
+Proof. apply entry_invalid_key. Qed.
+Print Assumptions C11_invalid_key_every_operation.
